@@ -378,6 +378,28 @@ def obs_class_of(o):
     return "accepted" if o[0] == "ok" else ("rejected" if o[1] == "ValueError" else "internal-error:" + o[1])
 
 
+SWEEP_TEXTS = ["True", "False", "yes", "None", "1", "str"]
+
+
+def prepare_lists(rep, tl, tier):
+    lcases = {}
+    for key in ("l1a", "l2s" if tier == "quick" else "l2m"):
+        for c in tl[key].printed:
+            lcases["".join(c["toks"])] = c
+    texts = sorted(lcases)
+    reqs, meta = [], []
+    for t in texts:
+        c = lcases[t]
+        for way, relaxed, ign in (("header", False, True), ("xopt", True, False)):
+            s = decode_map(c[way])
+            p = p_list(t, relaxed, ign)
+            if p != s:
+                rep.spec_drift("DirectiveText list rules vs documentation", {"text": t, "way": way, "spec": s, "python": p})
+            reqs.append([t, relaxed, ign])
+            meta.append((t, way, s, c["toks"]))
+    return lcases, texts, reqs, meta
+
+
 def text_part(rep, tl, tier, rng, cov, stats):
     # ---- values
     vrec = tl["v3" if tier == "quick" else "v4"]
@@ -412,7 +434,11 @@ def text_part(rep, tl, tier, rng, cov, stats):
                                     ("language_level", False, "str"), ("c_compile_guard", True, "str")):
             reqs.append([name, t, relaxed])
             meta.append((t, name, relaxed, rule, s.get(rule)))
-    out = run_parse({"value": reqs})["value"]
+    vreqs, vmeta = reqs, meta
+    lcases, texts, lreqs, lmeta = prepare_lists(rep, tl, tier)
+    # one child: values, lists, the directive table and the per-name sweep
+    pout = run_parse({"value": vreqs, "list": lreqs, "table": True, "sweep_texts": SWEEP_TEXTS})
+    out = pout["value"]
     n_acc = 0
     for (t, name, relaxed, rule, want), o in zip(meta, out):
         if rule in ("sbool", "rbool"):
@@ -438,22 +464,7 @@ def text_part(rep, tl, tier, rng, cov, stats):
         core.die("binding self-test (text part) failed")
 
     # ---- lists
-    lcases = {}
-    for key in ("l1a", "l2s" if tier == "quick" else "l2m"):
-        for c in tl[key].printed:
-            lcases["".join(c["toks"])] = c
-    texts = sorted(lcases)
-    reqs, meta = [], []
-    for t in texts:
-        c = lcases[t]
-        for way, relaxed, ign in (("header", False, True), ("xopt", True, False)):
-            s = decode_map(c[way])
-            p = p_list(t, relaxed, ign)
-            if p != s:
-                rep.spec_drift("DirectiveText list rules vs documentation", {"text": t, "way": way, "spec": s, "python": p})
-            reqs.append([t, relaxed, ign])
-            meta.append((t, way, s, c["toks"]))
-    out = run_parse({"list": reqs})["list"]
+    meta, out = lmeta, pout["list"]
     n_ok = 0
     for (t, way, s, toks), o in zip(meta, out):
         w = ["exc", "ValueError"] if s is None else ["ok", s]
@@ -481,8 +492,14 @@ def text_part(rep, tl, tier, rng, cov, stats):
         jmeta.append((t, "header", decode_map(c["header"])))
         jobs.append({"name": "e2x%d" % n, "source": body, "dirs": dirs, "transport": "cmdline", "directives": {}, "xargs": [t]})
         jmeta.append((t, "xopt", decode_map(c["xopt"])))
-    mods = [(None, j) for j in jobs]
+    table = pout.get("table")
+    if not table or len(table["types"]) < 50:
+        core.die("directive table not exported")
+    name_sweep(rep, table, pout["sweep"], stats)
+    hjobs, hmeta = header_scope_jobs(table)
+    mods = [(None, j) for j in jobs + hjobs]
     res = run_fact_jobs(mods, 8, "e2e")
+    header_scope_judge(rep, hjobs, hmeta, res, stats)
     for j, (t, way, s) in zip(jobs, jmeta):
         r = res[j["name"]]
         desc = {"part": "list-e2e", "way": way, "expected": "accepted" if s is not None else "rejected"}
@@ -510,24 +527,17 @@ def text_part(rep, tl, tier, rng, cov, stats):
         if bad:
             rep.disagree(desc, "wrong-value", dict(detail, diff=bad))
 
-    # ---- the per-type rule on every name of the real directive table
-    table = run_parse({"value": [], "list": [], "table": True}).get("table")
     return table
 
 
-def name_sweep(rep, table, stats):
+def name_sweep(rep, table, sweep, stats):
     """every name that parse_directive_list can reach (the keys of the defaults table):
     bool -> the bool rules, str -> accepted unchanged, list -> [text], validators -> accepted or
     ValueError, no string form -> rejected (ValueError)."""
-    texts = ["True", "False", "yes", "None", "1", "str"]
-    reqs, meta = [], []
-    for name, tclass in sorted(table["types"].items()):
-        for t in texts:
-            for relaxed, ign in ((False, True), (True, False)):
-                reqs.append(["%s=%s" % (name, t), relaxed, ign])
-                meta.append((name, tclass, t, relaxed))
-    out = run_parse({"list": reqs})["list"]
-    for (name, tclass, t, relaxed), o in zip(meta, out):
+    if len(sweep) != len(table["types"]) * len(SWEEP_TEXTS) * 2:
+        core.die("sweep incomplete")
+    for name, t, relaxed, o in sweep:
+        tclass = table["types"][name]
         stats["sweep"] += 1
         p = p_value(t)
         if tclass == "bool":
@@ -550,7 +560,7 @@ def name_sweep(rep, table, stats):
                          obs_class_of(o), {"name": name, "text": t, "relaxed_bool": relaxed, "want": w, "got": o})
 
 
-def header_scope_sweep(rep, table, stats):
+def header_scope_jobs(table):
     """a header comment that names a directive which is not allowed at module scope must be
     diagnosed (compile error), like the same directive in any other wrong place"""
     jobs, meta = [], []
@@ -562,9 +572,10 @@ def header_scope_sweep(rep, table, stats):
         jobs.append({"name": "hs%d" % len(jobs), "source": "# cython: %s=%s\ndef f():\n    return 1\n" % (name, val),
                      "dirs": [name], "transport": "options", "directives": {}})
         meta.append((name, tclass))
-    if not jobs:
-        return
-    res = run_fact_jobs([(None, j) for j in jobs], 4, "hs")
+    return jobs, meta
+
+
+def header_scope_judge(rep, jobs, meta, res, stats):
     for j, (name, tclass) in zip(jobs, meta):
         r = res[j["name"]]
         stats["header_scope"] += 1
@@ -644,6 +655,8 @@ def run(tier, seed):
     quick = tier == "quick"
     par = 8 if quick else core.NCPU
 
+    core.scratch()      # created here: the worker threads below must not race for it
+    core.snapshot()
     phases = cov.setdefault("phase_wall_s", {})
     tl = run_tlc(tier, cov)
     phases["tlc"] = round(time.time() - t0, 1)
@@ -686,11 +699,7 @@ def run(tier, seed):
 
     def text_work():
         t = time.time()
-        table = text_part(col, tl, tier, trng, cov, tstats)
-        if not table or len(table["types"]) < 50:
-            core.die("directive table not exported")
-        name_sweep(col, table, tstats)
-        header_scope_sweep(col, table, tstats)
+        text_part(col, tl, tier, trng, cov, tstats)
         phases["texts"] = round(time.time() - t, 1)
 
     tp = time.time()
